@@ -90,14 +90,30 @@ def summary_frame(repo, chk):
     rows, heur = fn.params[0], fn.params[1]
     body = [s for s in fn.node.body if not (isinstance(s, ast.Expr) and isinstance(s.value, ast.Constant))]
     r = returns(fn)
-    if len(r) != 1 or not isinstance(r[0].value, ast.Name):
-        chk.unsure('C18.2', 'R15', fn.site(), 'return final_df', 'single named return expected')
+    if len(r) != 1:
+        chk.unsure('C18.2', 'R15', fn.site(), 'return final_df', 'single return expected')
         return
-    df = r[0].value.id
+    pseudo = None
+    if isinstance(r[0].value, ast.Name):
+        df = r[0].value.id
+    else:
+        # `return <chain on the frame>`: treat the returned expression as the last re-binding of the frame
+        root = r[0].value
+        while isinstance(root, (ast.Call, ast.Attribute, ast.Subscript)):
+            root = root.func if isinstance(root, ast.Call) else root.value
+        if not isinstance(root, ast.Name):
+            chk.unsure('C18.2', 'R15', fn.site(r[0]), ast.unparse(r[0])[:100], 'cannot find the frame the returned expression is built from')
+            return
+        df = root.id
+        pseudo = ast.copy_location(ast.Assign(targets=[ast.Name(df, ast.Store())], value=r[0].value), r[0])
+        ast.fix_missing_locations(pseudo)
     E = lambda s: expected_term(m, s)
     col = "f'Score {" + heur + "}'"
     base = f"pandas.DataFrame({rows}, columns=['Feature', {col}])"
     assigns = [s for s in own_nodes(fn.node) if isinstance(s, ast.Assign) and any(isinstance(t, ast.Name) and t.id == df for t in s.targets)]
+    if pseudo is not None:
+        assigns.append(pseudo)
+        body = body + [pseudo]
     assigns.sort(key=lambda s: s.lineno)
     cn = Canon(m, Scope(None), inline=False)
     # symbolic value of df after each top-level assignment
